@@ -254,7 +254,7 @@ func collectTVarFTypeWithSet(visited SSet, ft FType) []string {
 		return slice.Append(fres, tres)
 	case FType_FUnion:
 		ut := _v9.Value
-		uname := utName(ut)
+		uname := uniToKey(ut)
 		return frt.IfElse(SSetHasKey(visited, uname), (func() []string {
 			return slice.New[string]()
 		}), (func() []string {
@@ -457,7 +457,7 @@ func transTVFTypeWithSet(visited SSet, transTV func(TypeVar) FType, ftp FType) F
 		return frt.Pipe(transRecType(recurse, rt), New_FType_FRecord)
 	case FType_FUnion:
 		ut := _v17.Value
-		uname := utName(ut)
+		uname := uniToKey(ut)
 		return frt.IfElse(SSetHasKey(visited, uname), (func() FType {
 			return ftp
 		}), (func() FType {
